@@ -149,6 +149,10 @@ impl Violation {
     }
 }
 
+/// coarse global progress counter (bumped every 256 accounted cases per thread) for the
+/// stall monitor of C01/C20
+pub static PROGRESS: AtomicU64 = AtomicU64::new(0);
+
 pub type Check<'a> = dyn Fn(&mut Ctx, &mut Local, &CaseRec) -> Result<(), Violation> + Sync + 'a;
 
 // ---------------------------------------------------------------------------------
@@ -436,6 +440,9 @@ impl Runner {
             return;
         }
         l.evals += 1;
+        if l.evals & 255 == 0 {
+            PROGRESS.fetch_add(1, Ordering::Relaxed);
+        }
         if nontrivial {
             l.nontrivial += 1;
             if self.stats.distinct.insert(rec_hash(rec)) {
@@ -650,7 +657,7 @@ impl Runner {
         let mut best = v;
         // records that are not buffers judged in-process are not shrunk (programs,
         // build combinations) or only briefly (each attempt spawns processes)
-        if matches!(&*best.rec.sub, "compile" | "lattice" | "build" | "race" | "variant-crash" | "crash") {
+        if matches!(&*best.rec.sub, "compile" | "lattice" | "build" | "race" | "variant-crash" | "crash" | "cachegrind") {
             return best;
         }
         let mut budget = if &*best.rec.sub == "variant-pair" { 250usize } else { 3000usize };
